@@ -179,7 +179,7 @@ package shaping
 //@   modifies unspecified
 //
 //@ spec visuallyLast(dir di.Direction, n int) int = ite(bool(dir.Progression()), 0, n-1)
-//@ func LineWrapper.postProcessLine C08 C02
+//@ func LineWrapper.postProcessLine C08 C02 C04
 //@   mode int
 //@   requires len(finalLine) < 2147483647 && l.breaker != nil
 //@   ensures [range] forall(k, 0, len(result0.Line), 0 <= int(result0.Line[k].VisualIndex) && int(result0.Line[k].VisualIndex) < len(result0.Line))
@@ -193,6 +193,11 @@ package shaping
 //@   ensures [truncated-count] result0.Truncated == ite(old(l.truncating) && old(l.config.TruncateAfterLines) == 1, old(l.breaker.totalRunes) - l.lineStartRune, 0)
 //@   ensures [done] result1 == (done0 || l.lineStartRune >= old(l.breaker.totalRunes) || (old(l.truncating) && old(l.config.TruncateAfterLines) == 1))
 //@   ensures [more] implies(result1, !l.more)
+//   C04 ("truncation is honoured"): on the last permitted line the truncator run is appended whenever runes are
+//   left out or the text continues - also when the line itself is empty - and it accounts for exactly those runes
+//@   ensures [truncator-inserted] implies(old(l.truncating) && old(l.config.TruncateAfterLines) == 1 && (result0.Truncated > 0 || old(l.config.TextContinues)),
+//@     | len(result0.Line) == len(finalLine0)+1 && result0.Line[len(finalLine0)].Runes.Count == result0.Truncated && result0.Line[len(finalLine0)].Runes.Offset == result0.NextLine)
+//@   ensures [no-truncator-otherwise] implies(!(old(l.truncating) && old(l.config.TruncateAfterLines) == 1 && (result0.Truncated > 0 || old(l.config.TextContinues))), len(result0.Line) == len(finalLine0))
 //@   modifies unspecified
 //@   loop 1 invariant [goal] 0 <= goalIdx && goalIdx < len(finalLine) && goalIdx == visuallyLast(l.config.Direction, len(finalLine))
 //@   loop 1 invariant [not-yet] forall(k, 0, rangeindex+1, int(finalLine[k].VisualIndex) != visuallyLast(l.config.Direction, len(finalLine)))
@@ -207,7 +212,7 @@ package shaping
 //@ spec cutLo(run Output, startRune int) int = max(startRune-run.Runes.Offset, 0)
 //@ spec cutHi(run Output, mapping []int, endRune int) int = min(endRune-run.Runes.Offset, len(mapping)-1)
 //
-//@ func cutRun C02
+//@ func cutRun C02 C04
 //@   mode bv
 //@   requires mapOK(run, mapping)
 //@   requires 0 <= run.Runes.Offset && run.Runes.Offset <= 1<<40 && 0 <= startRune && startRune <= endRune && endRune <= 1<<40
@@ -247,7 +252,7 @@ package shaping
 // Shape: for ANY run bounds (negative, reversed, beyond the text) the text handed to HarfBuzz satisfies AddRunes'
 // precondition (call-pre obligation), and the output reports exactly the requested rune range, face and size.
 // Everything HarfBuzz does in between is unknown to this proof (the heap is havocked by the calls).
-//@ func HarfbuzzShaper.Shape C01 C13
+//@ func HarfbuzzShaper.Shape C01 C13 C12
 //@   mode bv
 //@   requires [face] input.Face != nil
 //@   ensures [requested-range] result.Runes.Offset == input0.RunStart && result.Runes.Count == input0.RunEnd - input0.RunStart
@@ -256,6 +261,9 @@ package shaping
 //   C13 ("a shaper that has been used before returns exactly what a fresh one returns"): the harfbuzz.Font handed to
 //   HarfBuzz is one built from THIS face, whatever the font cache holds.
 //@   assert_at call Shape#1 : [font-of-this-face] font.Face() == input.Face
+//   C12 (line bounds): the font extents are taken for the direction of the OUTPUT run (vertical again for a sideways
+//   run, which is shaped horizontally in between)
+//@   assert_at call ExtentsForDirection#1 : [extents-for-output-direction] arg1 == out.Direction.Harfbuzz()
 //@   assert_at call Shape#1 : [font-scaled-for-this-size] font.XScale == int32(input.Size.Ceil())<<scaleShift && font.YScale == font.XScale
 //
 // The font cache: frames only (the list/map invariants are not stated).
@@ -401,8 +409,17 @@ package shaping
 //@ trusted RunIterator.Restore
 //@   params it
 //@   modifies nothing
-//@ trusted breaker.nextWordBreak
-//@   modifies *l; all(segmenter.LineIterator); all(segmenter.GraphemeIterator)
+// nextWordBreak: a candidate handed out is recorded unchanged (position AND mandatory flag) so that it is handed out
+// again, identically, after markWordOptionUnused; a fresh candidate is the raw UAX #14 one.
+//@ func breaker.nextWordBreak C03
+//@   mode int
+//@   requires wsOK(l)
+//@   ensures [replayed-as-recorded] implies(old(l.isUnusedWord), result1 && result0.breakAtRune == old(l.unusedWordBreak.breakAtRune) && result0.required == old(l.unusedWordBreak.required))
+//@   ensures [recorded-for-replay] implies(result1, !l.isUnusedWord && l.unusedWordBreak.breakAtRune == result0.breakAtRune && l.unusedWordBreak.required == result0.required)
+//@   ensures [fresh-is-raw] implies(!old(l.isUnusedWord) && result1, result0.breakAtRune == l.wordSegmenter.attributeIterator.pos-1 && 0 <= result0.breakAtRune &&
+//@     | result0.required == (l.wordSegmenter.attributeIterator.src.attributes[result0.breakAtRune+1]&2 != 0 && result0.breakAtRune != l.totalRunes-1))
+//@   ensures [previous-shifted] implies(!old(l.isUnusedWord) && result1, l.previousWordBreak.breakAtRune == old(l.unusedWordBreak.breakAtRune))
+//@   modifies l.isUnusedWord; l.unusedWordBreak; l.previousWordBreak; l.wordSegmenter.attributeIterator.pos; l.wordSegmenter.attributeIterator.lastBreak
 //@ trusted breaker.nextGraphemeBreak
 //@   modifies *l; all(segmenter.LineIterator); all(segmenter.GraphemeIterator)
 //
@@ -442,8 +459,35 @@ package shaping
 //
 //@ trusted LineWrapper.fillUntil
 //@   modifies l.scratch.alt; l.scratch.altAdvance; all(Output)
-//@ trusted mapRunesToClusterIndices3
+// mapRunesToClusterIndices3: every rune of the run is mapped to the first glyph (in glyph order) of the cluster
+// holding it. clusterEdge is a ghost predicate naming the glyph the walk visits for each cluster (the first glyph of
+// the cluster in a left-to-right run, the last one in a right-to-left run); the precondition says the clusters are
+// well formed: the walk starts on the cluster of the run's first rune, each cluster's rune span ends where the next
+// one starts, the last ends with the run, and the two ends of a cluster carry the same counts.
+//@ opaque clusterEdge(g int) bool
+//@ spec runeInCluster(glyphs []Glyph, off int, i int, m int) bool = 0 <= m && m < len(glyphs) && glyphs[m].ClusterIndex-off <= i && i < glyphs[m].ClusterIndex-off+glyphs[m].RuneCount
+//@ func mapRunesToClusterIndices3 C02
+//@   mode int
+//@   requires [ltr-clusters] implies(!bool(dir.Progression()) && len(glyphs) > 0, clusterEdge(0) && glyphs[0].ClusterIndex == runes.Offset && forall(g, 0, len(glyphs), implies(clusterEdge(g), glyphs[g].GlyphCount >= 1 && glyphs[g].RuneCount >= 1 && g+glyphs[g].GlyphCount <= len(glyphs) && implies(g+glyphs[g].GlyphCount < len(glyphs), clusterEdge(g+glyphs[g].GlyphCount) && glyphs[g+glyphs[g].GlyphCount].ClusterIndex == glyphs[g].ClusterIndex+glyphs[g].RuneCount) && implies(g+glyphs[g].GlyphCount == len(glyphs), glyphs[g].ClusterIndex+glyphs[g].RuneCount == runes.Offset+runes.Count))))
+//@   requires [rtl-clusters] implies(bool(dir.Progression()) && len(glyphs) > 0, clusterEdge(len(glyphs)-1) && glyphs[len(glyphs)-1].ClusterIndex == runes.Offset && forall(g, 0, len(glyphs), implies(clusterEdge(g), glyphs[g].GlyphCount >= 1 && glyphs[g].RuneCount >= 1 && g-glyphs[g].GlyphCount >= -1 && glyphs[g-glyphs[g].GlyphCount+1].ClusterIndex == glyphs[g].ClusterIndex && glyphs[g-glyphs[g].GlyphCount+1].RuneCount == glyphs[g].RuneCount && glyphs[g-glyphs[g].GlyphCount+1].GlyphCount == glyphs[g].GlyphCount && implies(g-glyphs[g].GlyphCount >= 0, clusterEdge(g-glyphs[g].GlyphCount) && glyphs[g-glyphs[g].GlyphCount].ClusterIndex == glyphs[g].ClusterIndex+glyphs[g].RuneCount) && implies(g-glyphs[g].GlyphCount == -1, glyphs[g].ClusterIndex+glyphs[g].RuneCount == runes.Offset+runes.Count))))
+//@   requires [magnitudes] 0 <= runes.Offset && runes.Offset <= 1<<40 && runes.Count <= 1<<40 && forall(g, 0, len(glyphs), 0 <= glyphs[g].ClusterIndex && glyphs[g].ClusterIndex <= 1<<41 && 0 <= glyphs[g].RuneCount && glyphs[g].RuneCount <= 1<<41 && -(1<<41) <= glyphs[g].GlyphCount && glyphs[g].GlyphCount <= 1<<41)
+//@   ensures [length] implies(runes.Count > 0, len(result) == runes.Count)
+//@   ensures [ltr-rune-in-its-cluster] implies(!bool(dir.Progression()) && len(glyphs) > 0 && runes.Count > 0, forall(i, 0, runes.Count, clusterEdge(result[i]) && runeInCluster(glyphs, runes.Offset, i, result[i])))
+//@   ensures [rtl-rune-in-its-cluster] implies(bool(dir.Progression()) && len(glyphs) > 0 && runes.Count > 0, forall(i, 0, runes.Count, runeInCluster(glyphs, runes.Offset, i, result[i]) && clusterEdge(result[i]+glyphs[result[i]].GlyphCount-1)))
 //@   modifies buf[0:cap(buf)]
+//@   loop 1 invariant [g-range] -1 <= gIdx && gIdx < len(glyphs) && implies(gIdx >= 0, clusterEdge(gIdx) && glyphs[gIdx].ClusterIndex >= runes.Offset) && len(mapping) == runes.Count
+//@   loop 1 invariant [covered] implies(len(glyphs) > 0, forall(i, 0, min(ite(gIdx >= 0, glyphs[gIdx].ClusterIndex-runes.Offset, runes.Count), runes.Count), runeInCluster(glyphs, runes.Offset, i, mapping[i]) && clusterEdge(mapping[i]+glyphs[mapping[i]].GlyphCount-1)))
+//@   loop 2 invariant [g-range] 0 <= gIdx && gIdx < len(glyphs) && clusterEdge(gIdx+glyph.GlyphCount-1) && glyphs[gIdx].ClusterIndex == glyph.ClusterIndex && glyphs[gIdx].RuneCount == glyph.RuneCount && glyphs[gIdx].GlyphCount == glyph.GlyphCount && glyph.RuneCount >= 1 && len(mapping) == runes.Count
+//@   loop 2 invariant [next] implies(gIdx >= 1, clusterEdge(gIdx-1) && glyphs[gIdx-1].ClusterIndex == glyph.ClusterIndex+glyph.RuneCount) && implies(gIdx == 0, glyph.ClusterIndex+glyph.RuneCount == runes.Offset+runes.Count)
+//@   loop 2 invariant [i-range] clusterStart == glyph.ClusterIndex-runes.Offset && clusterEnd == clusterStart+glyph.RuneCount && 0 <= clusterStart && clusterStart <= i && i <= clusterEnd+1
+//@   loop 2 invariant [prefix-kept] forall(j, 0, min(clusterStart, runes.Count), runeInCluster(glyphs, runes.Offset, j, mapping[j]) && clusterEdge(mapping[j]+glyphs[mapping[j]].GlyphCount-1))
+//@   loop 2 invariant [this-cluster] forall(j, clusterStart, min(i, runes.Count), mapping[j] == gIdx)
+//@   loop 3 invariant [g-range] 0 <= gIdx && gIdx <= len(glyphs) && implies(gIdx < len(glyphs), clusterEdge(gIdx) && glyphs[gIdx].ClusterIndex >= runes.Offset) && len(mapping) == runes.Count
+//@   loop 3 invariant [covered] implies(len(glyphs) > 0, forall(i, 0, min(ite(gIdx < len(glyphs), glyphs[gIdx].ClusterIndex-runes.Offset, runes.Count), runes.Count), clusterEdge(mapping[i]) && runeInCluster(glyphs, runes.Offset, i, mapping[i])))
+//@   loop 4 invariant [g-range] 0 <= gIdx && gIdx < len(glyphs) && clusterEdge(gIdx) && glyph.ClusterIndex == glyphs[gIdx].ClusterIndex && glyph.RuneCount == glyphs[gIdx].RuneCount && glyph.GlyphCount == glyphs[gIdx].GlyphCount && len(mapping) == runes.Count
+//@   loop 4 invariant [i-range] clusterStart == glyph.ClusterIndex-runes.Offset && clusterEnd == clusterStart+glyph.RuneCount && 0 <= clusterStart && clusterStart <= i && i <= clusterEnd+1
+//@   loop 4 invariant [prefix-kept] forall(j, 0, min(clusterStart, runes.Count), clusterEdge(mapping[j]) && runeInCluster(glyphs, runes.Offset, j, mapping[j]))
+//@   loop 4 invariant [this-cluster] forall(j, clusterStart, min(i, runes.Count), mapping[j] == gIdx)
 //
 // processBreakOption: the fit classification. w = ceil(space-aware advance of the candidate run in PARAGRAPH direction
 // + advance of the runs already on the candidate line).
@@ -468,13 +512,21 @@ package shaping
 // Assumed contract of the Fontmap interface (documented: "It must always return a valid (non nil) *font.Face"; determinism
 // is the property's implicit hypothesis): ResolveFace is a function faceFor(fontmap, rune) and does not touch the runs.
 //@ opaque faceFor(fm Fontmap, r rune) region
-//@ opaque ignorableRune(r rune) bool
+//@ spec ignorableRune(r rune) bool = segmenter.inTable(unicode.Cc, r) || segmenter.inTable(unicode.Cs, r) || segmenter.inTable(unicode.Zl, r) || segmenter.inTable(unicode.Zp, r) || (segmenter.inTable(unicode.Zs, r) && r != 0x1680) || hbIgnorable(r)
 //@ trusted Fontmap.ResolveFace
 //@   params fm, r
 //@   ensures [non-nil] result != nil && rid(result) == faceFor(fm, r) && off(result) == 0
 //@   modifies nothing
-//@ trusted ignoreFaceChange
+// ignoreFaceChange, from its documentation: controls, surrogates, line and paragraph separators, space separators other
+// than U+1680 OGHAM SPACE MARK, and default ignorables never force a change of face.
+//@ opaque hbIgnorable(r rune) bool
+//@ trusted std:harfbuzz.IsDefaultIgnorable
+//@   ensures [def] result == hbIgnorable(ch)
+//@   modifies nothing
+//@ func ignoreFaceChange C07
+//@   mode int
 //@   ensures [def] result == ignorableRune(r)
+//@   ensures [as-documented] result == (segmenter.inTable(unicode.Cc, r) || segmenter.inTable(unicode.Cs, r) || segmenter.inTable(unicode.Zl, r) || segmenter.inTable(unicode.Zp, r) || (segmenter.inTable(unicode.Zs, r) && r != 0x1680) || hbIgnorable(r))
 //@   modifies nothing
 //
 // sameRunFields: everything a splitting pass must not touch.
@@ -601,7 +653,7 @@ package shaping
 //@ trusted std:unicodedata.LookupVerticalOrientation
 //@   ensures [for-this-script] result.script == s
 //@   modifies nothing
-//@ func Segmenter.splitByVertOrientation C07
+//@ func Segmenter.splitByVertOrientation C07 C08
 //@   mode int
 //@   requires [inputs-in-text] forall(k, 0, len(seg.input), 0 <= seg.input[k].RunStart && seg.input[k].RunStart <= seg.input[k].RunEnd && seg.input[k].RunEnd <= len(seg.input[k].Text))
 //@   requires [buffers-distinct] rid(seg.input) != rid(seg.output) || len(seg.input) == 0
@@ -623,6 +675,7 @@ package shaping
 //@   loop 2 invariant [this-input] 0 <= rangeindex && rangeindex < len(seg.input) && input.RunStart == seg.input[rangeindex].RunStart && input.RunEnd == seg.input[rangeindex].RunEnd
 //@   loop 2 invariant [grows] len(seg.output) >= old(len(seg.output)) + rangeindex
 //@   loop 2 invariant [table-of-this-script] vo.script == input.Script
+//@   loop 2 invariant [progression-kept] currentInput.Direction.Progression() == input.Direction.Progression()
 //@   loop 2 invariant [uniform-so-far] forall(p, currentInput.RunStart, i, orientOf(vo, currentInput.Text[p]) == currentInput.Direction.IsSideways())
 //@   loop 2 invariant [chain] implies(inputsContiguous(seg.input), forall(m, old(len(seg.output)), len(seg.output)-1, seg.output[m].RunEnd == seg.output[m+1].RunStart))
 //@   loop 2 invariant [tail] implies(inputsContiguous(seg.input), (len(seg.output) == old(len(seg.output)) && rangeindex == 0 && currentInput.RunStart == input.RunStart) || (len(seg.output) > old(len(seg.output)) && seg.output[len(seg.output)-1].RunEnd == currentInput.RunStart && seg.output[old(len(seg.output))].RunStart == seg.input[0].RunStart))
